@@ -95,7 +95,7 @@ func classify(v osmomath.Dec, err error, perr error) qres {
 }
 
 func (w *World) pair(pi, d int) (base, quote string) {
-	p := w.Pools[pi]
+	p := w.Pairs[pi]
 	if d == 0 {
 		return p.A1, p.A0
 	}
@@ -122,9 +122,9 @@ func (w *World) query(ctx sdk.Context, geo bool, pi, d int, s, e int64) qres {
 	var err error
 	perr := core.Try(func() error {
 		if geo {
-			v, err = w.App.TwapKeeper.GetGeometricTwap(ctx, w.Pools[pi].ID, base, quote, qt(ctx, s), qt(ctx, e))
+			v, err = w.App.TwapKeeper.GetGeometricTwap(ctx, w.pid(pi), base, quote, qt(ctx, s), qt(ctx, e))
 		} else {
-			v, err = w.App.TwapKeeper.GetArithmeticTwap(ctx, w.Pools[pi].ID, base, quote, qt(ctx, s), qt(ctx, e))
+			v, err = w.App.TwapKeeper.GetArithmeticTwap(ctx, w.pid(pi), base, quote, qt(ctx, s), qt(ctx, e))
 		}
 		return nil
 	})
@@ -140,25 +140,25 @@ func (w *World) queryNowGRPC(ctx sdk.Context, geo bool, pi, d int, s int64, viaE
 	perr := core.Try(func() error {
 		switch {
 		case geo && viaEndNil:
-			r, e := q.GeometricTwap(ctx, queryproto.GeometricTwapRequest{PoolId: w.Pools[pi].ID, BaseAsset: base, QuoteAsset: quote, StartTime: qt(ctx, s)})
+			r, e := q.GeometricTwap(ctx, queryproto.GeometricTwapRequest{PoolId: w.pid(pi), BaseAsset: base, QuoteAsset: quote, StartTime: qt(ctx, s)})
 			if r != nil {
 				v = r.GeometricTwap
 			}
 			err = e
 		case geo:
-			r, e := q.GeometricTwapToNow(ctx, queryproto.GeometricTwapToNowRequest{PoolId: w.Pools[pi].ID, BaseAsset: base, QuoteAsset: quote, StartTime: qt(ctx, s)})
+			r, e := q.GeometricTwapToNow(ctx, queryproto.GeometricTwapToNowRequest{PoolId: w.pid(pi), BaseAsset: base, QuoteAsset: quote, StartTime: qt(ctx, s)})
 			if r != nil {
 				v = r.GeometricTwap
 			}
 			err = e
 		case viaEndNil:
-			r, e := q.ArithmeticTwap(ctx, queryproto.ArithmeticTwapRequest{PoolId: w.Pools[pi].ID, BaseAsset: base, QuoteAsset: quote, StartTime: qt(ctx, s)})
+			r, e := q.ArithmeticTwap(ctx, queryproto.ArithmeticTwapRequest{PoolId: w.pid(pi), BaseAsset: base, QuoteAsset: quote, StartTime: qt(ctx, s)})
 			if r != nil {
 				v = r.ArithmeticTwap
 			}
 			err = e
 		default:
-			r, e := q.ArithmeticTwapToNow(ctx, queryproto.ArithmeticTwapToNowRequest{PoolId: w.Pools[pi].ID, BaseAsset: base, QuoteAsset: quote, StartTime: qt(ctx, s)})
+			r, e := q.ArithmeticTwapToNow(ctx, queryproto.ArithmeticTwapToNowRequest{PoolId: w.pid(pi), BaseAsset: base, QuoteAsset: quote, StartTime: qt(ctx, s)})
 			if r != nil {
 				v = r.ArithmeticTwap
 			}
@@ -209,6 +209,7 @@ type refAns struct {
 	N        int    // observations in force
 	Between  bool   // s is strictly between observations
 	First    bool   // the observation in force at s is the pool's first one (creation block)
+	T0       int64  // time of the observation in force at s
 	Zero     bool
 	Sum      [2]*big.Int // sum p_i * overlap_i (scaled 1e18)
 	Dur      int64
@@ -238,6 +239,7 @@ func (w *World) reference(l *Ledger, pi int, s, e, now int64, values bool) refAn
 	i0 := sort.Search(len(segs), func(i int) bool { return segs[i].T > s }) - 1
 	r.Between = segs[i0].T != s
 	r.First = i0 == 0
+	r.T0 = segs[i0].T
 	// closed interval for the flag
 	for i := i0; i < len(segs) && segs[i].T <= e; i++ {
 		if segs[i].Err {
@@ -342,7 +344,12 @@ func (w *World) sumExtra(key string, v float64) {
 func (w *World) describe(l *Ledger, pi int, now int64) string {
 	var b strings.Builder
 	g := ms(core.GenesisTime)
-	fmt.Fprintf(&b, "pool %d (%s) %s/%s; end-of-block observations [ms since genesis: P0 (quote %s), P1 (quote %s)]:", w.Pools[pi].ID, w.Pools[pi].Kind, w.Pools[pi].A0, w.Pools[pi].A1, w.Pools[pi].A0, w.Pools[pi].A1)
+	pp := w.Pairs[pi]
+	kind := w.Pools[pp.Pool].Kind
+	if n := w.Pools[pp.Pool].NPairs; n > 1 {
+		kind = fmt.Sprintf("%s, assets %s, pair %d of %d in the module's order", kind, strings.Join(w.Pools[pp.Pool].Denoms, ","), pp.Ord+1, n)
+	}
+	fmt.Fprintf(&b, "pool %d (%s) %s/%s; end-of-block observations [ms since genesis: P0 (quote %s), P1 (quote %s)]:", w.pid(pi), kind, pp.A0, pp.A1, pp.A0, pp.A1)
 	for _, s := range l.H[pi].Segs {
 		if s.Err {
 			fmt.Fprintf(&b, " [%d: ERROR]", s.T-g)
@@ -405,9 +412,10 @@ func (w *World) Check(ctx sdk.Context, l *Ledger, fail func(a, s, d string)) {
 		}
 	}
 
-	for pi := range w.Pools {
+	for pi := range w.Pairs {
 		pts := points(l, pi, now)
-		kind := w.Pools[pi].Kind
+		kind := w.Pairs[pi].Label
+		nonFirst := w.nonFirstOfMulti(pi)
 		type pr struct{ s, e int64 }
 		var pairs []pr
 		for i, s := range pts {
@@ -481,6 +489,17 @@ func (w *World) Check(ctx sdk.Context, l *Ledger, fail func(a, s, d string)) {
 						if ref.InWindow {
 							vac["answered_in_retention_window_after_pruning_started"]++
 						}
+						if nonFirst && ref.InWindow {
+							vac["multi_asset_pool_non_first_pair_queried_after_prune"]++
+							// the case "keep the newest record older than the cut-off" exists for: the interval starts inside
+							// the window, the price in force at its start was recorded before the cut-off
+							if ref.T0 < l.L {
+								vac["multi_asset_pool_non_first_pair_answered_from_newest_record_older_than_cutoff"]++
+								if !pruning {
+									vac["multi_asset_pool_non_first_pair_answered_from_newest_record_older_than_cutoff_after_completed_pass"]++
+								}
+							}
+						}
 					}
 					// error flag
 					if ref.Flagged && q.Class != "flag" {
@@ -488,7 +507,7 @@ func (w *World) Check(ctx sdk.Context, l *Ledger, fail func(a, s, d string)) {
 						continue
 					}
 					if !ref.Flagged && q.Class == "flag" {
-						if w.Cfg.SameBlockFund && pi == 1 && ref.First {
+						if w.Cfg.SameBlockFund && w.Pairs[pi].Pool == 1 && ref.First {
 							// The statement only says error => flagged. Observed and reported, not a violation: the record
 							// written when the pool was created (before its first position, same block) saw an error; the
 							// end-of-block rewrite keeps LastErrorTime == record time, which getInterpolatedRecord reads as
@@ -617,6 +636,12 @@ func (w *World) Check(ctx sdk.Context, l *Ledger, fail func(a, s, d string)) {
 						q2 := w.query(pctx, gi == 1, pi, d, s, e)
 						q1 := res[gi][d]
 						vac["prune_differential_queries"]++
+						if nonFirst {
+							vac["prune_differential_queries_multi_asset_pool_non_first_pair"]++
+							if ref.T0 < l.L {
+								vac["prune_differential_queries_multi_asset_pool_non_first_pair_from_record_older_than_cutoff"]++
+							}
+						}
 						same := q1.Class == q2.Class && (q1.Val == nil) == (q2.Val == nil) && (q1.Val == nil || q1.Val.Cmp(q2.Val) == 0)
 						if !same {
 							fail("prune.step-does-not-change-answers", fmt.Sprintf("%s/%s/quote%d/start:%s/end:%s", kind, []string{"arithmetic", "geometric"}[gi], d, sc, ec),
@@ -640,9 +665,9 @@ func (w *World) Check(ctx sdk.Context, l *Ledger, fail func(a, s, d string)) {
 					var err error
 					perr := core.Try(func() error {
 						if gi == 1 {
-							v, err = w.App.TwapKeeper.GetGeometricTwapToNow(live, w.Pools[pi].ID, base, quote, tms(now))
+							v, err = w.App.TwapKeeper.GetGeometricTwapToNow(live, w.pid(pi), base, quote, tms(now))
 						} else {
-							v, err = w.App.TwapKeeper.GetArithmeticTwapToNow(live, w.Pools[pi].ID, base, quote, tms(now))
+							v, err = w.App.TwapKeeper.GetArithmeticTwapToNow(live, w.pid(pi), base, quote, tms(now))
 						}
 						return nil
 					})
